@@ -111,7 +111,13 @@ func runC09(c *Ctx) {
 		}
 		for _, call := range callsIn(f, func(call ssa.CallInstruction) bool { return isMaker[call.Common().StaticCallee()] }) {
 			ncall++
-			eff := &flow.Effects{P: c.P, Funcs: map[*ssa.Function]bool{f: true}, Roots: map[*ssa.Function]bool{f: true}}
+			// the options object may be built by an unexported helper of the package (a literal returned by a method
+			// of the caller's options): what f's region allocates is allocated in this call
+			funcs := map[*ssa.Function]bool{}
+			for _, rf := range unexportedRegion(f) {
+				funcs[rf] = true
+			}
+			eff := &flow.Effects{P: c.P, Funcs: funcs, Roots: map[*ssa.Function]bool{f: true}}
 			ok := true
 			for _, a := range call.Common().Args {
 				if _, isPtr := a.Type().Underlying().(*types.Pointer); !isPtr {
